@@ -48,8 +48,36 @@ BASE = peg.G([
 ROLES = {'rule': 'Tok', 'rule2': 'Use', 'template': 'Pair', 'class': 'Box', 'pclass': 'Gen', 'field': 'first',
          'field2': 'third', 'letfield': 'hidden', 'param_parser': 'ppar', 'param_value': 'vpar', 'cparam_parser': 'qpar',
          'cparam_value': 'wpar', 'letvar': 'kvar', 'vclass': 'Rep', 'vcparam1': 'npar', 'vcparam2': 'mpar'}
+# Second grammar: every kind of user-named local is READ INSIDE A COMPOUND ARGUMENT of a parameterised
+# rule - inline Python, a symbolic repetition bound, a predicate - i.e. in code that is compiled into
+# a helper function of its own, to which the user's locals have to be handed over by name.
+_cap = lambda src: ('call', 'Idt', [('apply', ('lit', ''), ('py', 'lambda w: ' + src))], [])
+BASE2 = peg.G([
+    ('rule', 'Tok', None, ('rx', '[ab]+')),
+    ('rule', 'Num', None, ('apply', ('rx', '[0-9]'), ('py', 'int'))),
+    ('rule', 'Idt', ['ipar'], ('ref', 'ipar')),
+    ('rule', 'Tpl', ['ppar', 'vpar'], ('seq', [('ref', 'ppar'), _cap('vpar'), ('call', 'Idt', [('rep', ('lit', 'Q'), None, 'vpar')], []),
+                                               ('right', ('lit', '.'), ('call', 'Idt', [('ref', 'ppar')], []))])),
+    ('class', 'Box', None, [('field', 'first', ('ref', 'Tok')), ('let', 'hidden', ('ref', 'Num')),
+                            ('field', 'capa', _cap('(first, hidden)')),
+                            ('field', 'capb', ('call', 'Idt', [('rep', ('lit', 'a'), 'hidden', 'hidden')], [])),
+                            ('field', 'capc', ('call', 'Idt', [('opt', ('where', ('lit', 'Q'), ('py', 'lambda v: v != first')))], []))]),
+    ('class', 'Gen', ['qpar', 'wpar'], [('field', 'item', ('call', 'Idt', [('ref', 'qpar')], [])), ('field', 'tag', _cap('wpar')),
+                                        ('field', 'cnt', ('call', 'Idt', [('rep', ('lit', 'Q'), None, 'wpar')], []))]),
+    ('rule', 'Use', None, ('let', 'kvar', ('ref', 'Num'), ('seq', [
+        _cap('kvar + 1'), ('call', 'Idt', [('rep', ('lit', 'a'), 'kvar', 'kvar')], []),
+        ('right', ('lit', '-'), ('call', 'Idt', [('apply', ('ref', 'Tok'), ('py', 'lambda w: (w, kvar)'))], []))]))),
+    ('rule', 'start', None, ('seq', [('ref', 'Box'), ('lit', ';'), ('call', 'Gen', [('ref', 'Tok'), ('py', '1')], []), ('lit', ';'),
+                                     ('ref', 'Use'), ('opt', ('right', ('lit', ';'), ('call', 'Tpl', [('ref', 'Tok'), ('py', '2')], [])))])),
+])
+ROLES2 = {'h:field': 'first', 'h:letfield': 'hidden', 'h:param_parser': 'ppar', 'h:param_value': 'vpar', 'h:cparam_parser': 'qpar',
+          'h:cparam_value': 'wpar', 'h:letvar': 'kvar'}
+INPUTS2 = ['ab2aa;b;1a-ab', 'ab2aa;b;1a-ab;a.b', 'a0;a;0-b', 'a1a;b;2aa-a;ab.ab', '', 'ab', 'a1a;;', 'ab2a;b;1a-ab', 'ab2aa;b;1-ab',
+           'ab2aa;b;1a-ab;a.', 'b3aaa;ab;1a-b']
+ENTRY_CALLS2 = [('Use', None, ['1a-ab', '2a-a', '0-b']), ('Box', None, ['ab2aa', 'a0', 'b9']), ('Gen', ('Tok', 1), [])]
+ENTRY_CALLS2 = ENTRY_CALLS2[:2]
 CLASS_ROLES = ('class', 'pclass', 'vclass')
-FIELD_ROLES = ('field', 'field2')
+FIELD_ROLES = ('field', 'field2', 'h:field')
 INPUTS = ['ab2aa;b;ab-ba-a', 'ab2aa;3;ab-b-a;a1a,b,', 'a0;a;b-a-ab', 'ab2aa;b;ab-ba-ab', 'a1a;b;a-a-b;b3aaa,a', '', 'ab',
           'a1a;;', 'a1a;b;a-a', 'b9;a;a-b-b', 'a1a;b;a-a-b#aa', 'a1a;b;a-a-b;b#a']
 # every kind of entry point (the renamed name is looked up through the renaming)
@@ -88,20 +116,25 @@ def suspicious_names():
     # temporary, helper or global of the generator is tried as a user name automatically)
     import io
     import tokenize
-    mb, _ = sut.compile_grammar(peg.render(BASE), include_source=True)
-    if mb is not None:
-        try:
-            for tok in tokenize.generate_tokens(io.StringIO(mb._source_code).readline):
-                if tok.type == tokenize.NAME:
-                    names.append(tok.string)
-        except tokenize.TokenError:
-            pass
+    for bg in (BASE, BASE2):
+        mb, _ = sut.compile_grammar(peg.render(bg), include_source=True)
+        if mb is not None:
+            try:
+                for tok in tokenize.generate_tokens(io.StringIO(mb._source_code).readline):
+                    if tok.type == tokenize.NAME:
+                        names.append(tok.string)
+            except tokenize.TokenError:
+                pass
     out = sorted(set(n for n in names if n.isidentifier() and not keyword.iskeyword(n) and not n.startswith('_')
-                     and n not in API and n not in ROLES.values() and n not in ('Num', 'Lst', 'second', 'item', 'tag', 'cells', 'tagr')))
+                     and n not in API and n not in ROLES.values() and n not in ROLES2.values()
+                     and n not in ('Num', 'Lst', 'second', 'item', 'tag', 'cells', 'tagr', 'Idt', 'ipar', 'Tpl', 'capa', 'capb', 'capc', 'cnt',
+                                   'w', 'v')))
     return out
 
 
-def outcomes(g, mapping=None):
+def outcomes(g, mapping=None, inputs=None, entry_calls=None):
+    inputs = INPUTS if inputs is None else inputs
+    entry_calls = ENTRY_CALLS if entry_calls is None else entry_calls
     mod, err = sut.compile_grammar(peg.render(g))
     if mod is None:
         return ('COMPILE',) + tuple(err[:2])
@@ -115,9 +148,9 @@ def outcomes(g, mapping=None):
         if o[0] == 'HANG':
             hung[0] = True
         return o
-    out = [run(mod, None, t, budget=3.0) for t in INPUTS]
+    out = [run(mod, None, t, budget=3.0) for t in inputs]
     mapping = mapping or {}
-    for name, args, texts in ENTRY_CALLS:
+    for name, args, texts in entry_calls:
         try:
             obj = getattr(mod, mapping.get(name, name))
             fn = obj.parse(*args) if args is not None else obj.parse
@@ -130,37 +163,48 @@ def outcomes(g, mapping=None):
     return tuple(out)
 
 
-_base_out = None
+_base_out = {}
 
 
-def base_outcomes():
-    global _base_out
-    if _base_out is None:
-        _base_out = outcomes(BASE)
-        if _base_out[0][0] != 'OK':
-            raise RuntimeError('base grammar does not parse its first input: %r' % (_base_out[0],))
-    return _base_out
+def matrix_of(role):
+    if role.startswith('h:'):
+        return BASE2, ROLES2, INPUTS2, ENTRY_CALLS2
+    return BASE, ROLES, INPUTS, ENTRY_CALLS
+
+
+def base_outcomes(role='rule'):
+    bg, roles, inputs, calls = matrix_of(role)
+    k = id(bg)
+    if k not in _base_out:
+        _base_out[k] = outcomes(bg, None, inputs, calls)
+        if _base_out[k][0][0] != 'OK' or _base_out[k][1][0] != 'OK':
+            raise RuntimeError('base grammar does not parse its first inputs: %r' % (_base_out[k][:2],))
+    return _base_out[k]
 
 
 def check_pair(role, new):
     """None if renaming ROLES[role] -> new changes nothing but names, else a short description."""
-    old = ROLES[role]
-    g = renaming.rename_grammar(BASE, {old: new})
-    out = outcomes(g, {old: new})
+    bg, roles, inputs, calls = matrix_of(role)
+    old = roles[role]
+    g = renaming.rename_grammar(bg, {old: new})
+    out = outcomes(g, {old: new}, inputs, calls)
     cm = {old: new} if role in CLASS_ROLES else {}
     fm = {old: new} if role in FIELD_ROLES else {}
     want = tuple((o[0], renaming.map_canon(o[1], cm, fm)) + tuple(o[2:]) if o[0] in ('OK', 'PARTIAL') else o
-                 for o in base_outcomes())
+                 for o in base_outcomes(role))
     if out == want:
         return None
     if out[0] == 'COMPILE':
         return 'Grammar() raises %s' % (out[2] if len(out) > 2 else out[1])
-    labels = list(INPUTS) + ['%s.parse%s(%r%s)' % (n, '' if a is None else repr(a), t, k) for n, a, ts in ENTRY_CALLS
+    labels = list(inputs) + ['%s.parse%s(%r%s)' % (n, '' if a is None else repr(a), t, k) for n, a, ts in calls
                              for t in ts for k in ('', ', pos=2, fullparse=False')]
     for t, o, w in zip(labels, out, want):
         if o != w:
             return 'parse(%r) -> %s instead of %s' % (t, ':'.join(str(x)[:60] for x in o[:2]), w[0])
     return 'differs'
+
+
+ALL_ROLES = dict(ROLES, **ROLES2)
 
 
 def load_known():
@@ -253,7 +297,7 @@ class C20(Check):
         names = suspicious_names()
         tasks = []
         chunk = 12
-        for role in ROLES:
+        for role in ALL_ROLES:
             for i in range(0, len(names), chunk * 4):
                 tasks.append(('matrix', role, names[i:i + chunk * 4]))
         n = 16 if tier == 'quick' else 64
@@ -279,7 +323,7 @@ class C20(Check):
                     continue
                 res.nontrivial.add(h64(role, new))
                 if len(res.samples) < 1:
-                    res.sample({'role': role, 'old': ROLES[role], 'new': new, 'holds': why is None})
+                    res.sample({'role': role, 'old': ALL_ROLES[role], 'new': new, 'holds': why is None})
                 if why is not None:
                     res.mismatch({'role': role, 'new': new})
             return res
@@ -352,7 +396,7 @@ class C20(Check):
             why = check_pair(case['role'], case['new'])
             if why is None:
                 return None
-            return {'bucket': 'rename:%s' % case['role'], 'role': case['role'], 'old_name': ROLES[case['role']],
+            return {'bucket': 'rename:%s' % case['role'], 'role': case['role'], 'old_name': ALL_ROLES[case['role']],
                     'new_name': case['new'], 'what': why}
         g = peg.g_from_dict(case['g'])
         mapping = dict(case['mapping'])
@@ -408,8 +452,9 @@ class C20(Check):
 
     def describe(self, case):
         if 'role' in case:
-            return {'role': case['role'], 'old_name': ROLES[case['role']], 'new_name': case['new'],
-                    'grammar': peg.render(renaming.rename_grammar(BASE, {ROLES[case['role']]: case['new']})), 'inputs': INPUTS}
+            bg, roles, inputs, calls = matrix_of(case['role'])
+            return {'role': case['role'], 'old_name': roles[case['role']], 'new_name': case['new'],
+                    'grammar': peg.render(renaming.rename_grammar(bg, {roles[case['role']]: case['new']})), 'inputs': inputs}
         g = peg.g_from_dict(case['g'])
         return {'grammar': peg.render(g), 'mapping': case['mapping'], 'entry': case.get('entry'), 'input': case.get('text')}
 
